@@ -178,8 +178,12 @@ def _run_variant(args):
             os.environ['PFST_VERIF_JOBS'] = old_jobs
     if ctx is None:
         return 'error', []
-    new = [(f.rule, f.key) for f in ctx.findings if f.key not in base_keys]
-    new += [('still:' + f.rule, f.key) for f in ctx.findings if f.key in base_keys]
+    base_sigs = {engine.key_signature(k) for k in base_keys}
+
+    def in_base(k):
+        return k in base_keys or engine.key_signature(k) in base_sigs
+    new = [(f.rule, f.key) for f in ctx.findings if not in_base(f.key)]
+    new += [('still:' + f.rule, f.key) for f in ctx.findings if in_base(f.key)]
     return 'ok', new
 
 
